@@ -7,7 +7,9 @@ import HalmosVerif.Gen.Selectors
 namespace HalmosVerif.Props.C13
 open HalmosVerif.Lemmas.KeccakTables HalmosVerif.Gen.Selectors
 
-theorem hevmSelectors0_ok : hevmSelectors0.all selOk = true := by decide +kernel
-theorem hevmSelectors1_ok : hevmSelectors1.all selOk = true := by decide +kernel
+theorem hevmSelectors0_ok : hevmSelectors0.all selOk = true :=
+  all_quarters 10 (by decide +kernel) (by decide +kernel) (by decide +kernel) (by decide +kernel)
+theorem hevmSelectors1_ok : hevmSelectors1.all selOk = true :=
+  all_quarters 10 (by decide +kernel) (by decide +kernel) (by decide +kernel) (by decide +kernel)
 
 end HalmosVerif.Props.C13
